@@ -33,8 +33,10 @@ type scenario struct {
 	Aggr    bool     `json:"aggregate"`
 	Perturb string   `json:"perturb"` // "", swapK, dupK
 	Seq0    int      `json:"seq0"`
-	PsSplit bool     `json:"ps_split"`  // a frame in two PES packets
-	PsNoPts bool     `json:"ps_no_pts"` // ... the second one without PTS (continuation)
+	PsSplit bool     `json:"ps_split"`      // a frame in two PES packets
+	PsNoPts bool     `json:"ps_no_pts"`     // ... the second one without PTS (continuation)
+	AacAggr int      `json:"aac_aggregate"` // RTSP: up to this many consecutive AAC frames per RTP packet (0 / 1: one each)
+	AacFrag bool     `json:"aac_fragment"`  // RTSP: an AAC frame larger than the payload limit is fragmented
 }
 
 type frame struct {
@@ -350,6 +352,7 @@ func run(sc scenario) (res []result, compared int, infra error) {
 		}
 		// packets of one track, in order; the perturbation applies to the video track (audio if no video)
 		var vp, ap [][]byte
+		var aacPend []frame
 		for _, f := range fs {
 			if f.video {
 				var pl [][]byte
@@ -367,6 +370,10 @@ func run(sc scenario) (res []result, compared int, infra error) {
 					vseq++
 				}
 			} else {
+				if sc.Audio == "aac" && (sc.AacAggr > 1 || sc.AacFrag) {
+					aacPend = append(aacPend, f)
+					continue
+				}
 				if sc.Audio == "aac" {
 					ap = append(ap, ref.BuildRtp(ref.Rtp{Marker: true, PT: 97, Seq: aseq, Ts: f.ts, Ssrc: 8, Payload: ref.PackAacHbr(f.au)}))
 				} else if sc.Audio == "opus" {
@@ -376,6 +383,34 @@ func run(sc scenario) (res []result, compared int, infra error) {
 				}
 				aseq++
 			}
+		}
+		// AAC frames (all 1024 samples apart) aggregated and / or fragmented by the reference packetiser
+		for i := 0; i < len(aacPend); {
+			f := aacPend[i]
+			if sc.AacFrag && len(f.au)+4 > sc.Limit {
+				frags := ref.PackAacHbrFrag(f.au, sc.Limit)
+				for k, p := range frags {
+					ap = append(ap, ref.BuildRtp(ref.Rtp{Marker: k == len(frags)-1, PT: 97, Seq: aseq, Ts: f.ts, Ssrc: 8, Payload: p}))
+					aseq++
+				}
+				i++
+				continue
+			}
+			n := 1
+			if sc.AacAggr > 1 {
+				size := 2 + 2 + len(f.au)
+				for n < sc.AacAggr && i+n < len(aacPend) && size+2+len(aacPend[i+n].au) <= sc.Limit && !(sc.AacFrag && len(aacPend[i+n].au)+4 > sc.Limit) {
+					size += 2 + len(aacPend[i+n].au)
+					n++
+				}
+			}
+			var aus [][]byte
+			for k := 0; k < n; k++ {
+				aus = append(aus, aacPend[i+k].au)
+			}
+			ap = append(ap, ref.BuildRtp(ref.Rtp{Marker: true, PT: 97, Seq: aseq, Ts: f.ts, Ssrc: 8, Payload: ref.PackAacHbrMulti(aus)}))
+			aseq++
+			i += n
 		}
 		if sc.Video != "" {
 			vp = perturb(vp, sc.Perturb)
@@ -819,6 +854,27 @@ func main() {
 					b4.Aggr = true
 					cases = append(cases, b4)
 				}
+				if src == "rtsp" && c.a == "aac" {
+					hasA := false
+					for _, x := range sq {
+						if x[0] == 'A' {
+							hasA = true
+						}
+					}
+					if hasA {
+						for _, n := range []int{3, 12} {
+							b9 := base
+							b9.AacAggr = n
+							cases = append(cases, b9)
+						}
+						b10 := base
+						b10.Limit, b10.AacFrag = 100, true
+						cases = append(cases, b10)
+						b11 := b10
+						b11.AacAggr = 3
+						cases = append(cases, b11)
+					}
+				}
 				if src == "ps" {
 					b5 := base
 					b5.PsSplit = true
@@ -863,7 +919,7 @@ func main() {
 		r.AddTransitions(int64(len(sc.Seq) + 5))
 		r.AddTraces(1)
 		for _, v := range res {
-			r.Violation(sc.Source+"/"+v.key, fmt.Sprintf("[%s %s+%s@%d seq=%v limit=%d aggr=%v perturb=%s seq0=%d split=%v/%v] %s", sc.Source, sc.Video, sc.Audio, sc.Rate, sc.Seq, sc.Limit, sc.Aggr, sc.Perturb, sc.Seq0, sc.PsSplit, sc.PsNoPts, v.what), sc)
+			r.Violation(sc.Source+"/"+v.key, fmt.Sprintf("[%s %s+%s@%d seq=%v limit=%d aggr=%v perturb=%s seq0=%d split=%v/%v aac-aggr=%d aac-frag=%v] %s", sc.Source, sc.Video, sc.Audio, sc.Rate, sc.Seq, sc.Limit, sc.Aggr, sc.Perturb, sc.Seq0, sc.PsSplit, sc.PsNoPts, sc.AacAggr, sc.AacFrag, v.what), sc)
 		}
 		if compared > 0 {
 			r.Class(fmt.Sprintf("%+v", sc))
